@@ -436,3 +436,67 @@ class MemListener(AsyncListener):
     @property
     def extra_attributes(self):
         return {}
+
+
+# --------------------------------------------------------------------------------------------------
+# in-memory datagram listener built on the REAL DatagramListenerProtocol
+
+from easynetwork.lowlevel.api_async.backend._asyncio.datagram.listener import DatagramListenerProtocol  # noqa: E402
+from easynetwork.lowlevel.api_async.transports.abc import AsyncDatagramListener  # noqa: E402
+
+
+class _FakeDatagramTransport(asyncio.DatagramTransport):
+    def __init__(self):
+        super().__init__()
+        self.sent = []
+        self.closing = False
+
+    def is_closing(self):
+        return self.closing
+
+    def sendto(self, data, addr=None):
+        self.sent.append((bytes(data), addr))
+
+    def close(self):
+        self.closing = True
+
+    def get_extra_info(self, name, default=None):
+        return default
+
+
+class MemDatagramListener(AsyncDatagramListener):
+    """serve() is the real DatagramListenerProtocol.serve (one task per datagram, in reception order); the scenario
+    injects datagrams with inject(data, addr) = protocol.datagram_received(data, addr)."""
+
+    def __init__(self, be, loop):
+        self._be = be
+        self.transport = _FakeDatagramTransport()
+        self.protocol = DatagramListenerProtocol(loop=loop)
+        self.protocol.connection_made(self.transport)
+        self.closed = False
+
+    def inject(self, data, addr):
+        self.protocol.datagram_received(data, addr)
+
+    async def serve(self, handler, task_group=None):
+        async with contextlib.AsyncExitStack() as stack:
+            if task_group is None:
+                task_group = await stack.enter_async_context(self._be.create_task_group())
+            await self.protocol.serve(handler, task_group)
+
+    async def send_to(self, data, address):
+        self.transport.sendto(data, address)
+        await self.protocol.writer_drain()
+
+    async def aclose(self):
+        self.closed = True
+
+    def is_closing(self):
+        return self.closed
+
+    def backend(self):
+        return self._be
+
+    @property
+    def extra_attributes(self):
+        return {}
